@@ -52,3 +52,16 @@ stage_plain() { # <scratch>
     echo "INFRA: plain build failed:" >&2; head -40 "$s/build-plain.log" >&2; return 2
   fi
 }
+
+# stage_plain_race <scratch>: the plain flavour built with the race detector (auxiliary free-running pass)
+stage_plain_race() {
+  local s=$1
+  copy_repo "$s/plainrace" || return 2
+  rsync -a "$VERIF/harness/plain/" "$s/plainrace/" || return 2
+  rsync -a "$VERIF/harness/ref/" "$s/plainrace/zzref/" 2>/dev/null
+  (cd "$s/plainrace" && go mod edit -require=verif/vs@v0.0.0 -replace=verif/vs="$VERIF/engine/vs") || return 2
+  (cd "$s/plainrace" && go build -race -tags verif -o "$s/pharness-race" ./cmd/pharness) > "$s/build-race.log" 2>&1
+  if [ $? -ne 0 ]; then
+    echo "INFRA: race build failed:" >&2; head -40 "$s/build-race.log" >&2; return 2
+  fi
+}
